@@ -38,16 +38,16 @@ def run(c):
     c.r1("input-needs-index", VI, B + "get_output_pos_height", via=0)
     c.r1("input-needs-data", VI, "re:ReadablePMMR>::get_data$|pmmr::ReadablePMMR::get_data$", via=0,
          desc="validate_input: ok only if the indexed position still holds data in the (fork-local) output MMR")
-    c.r2("input-commitment-match", VI, cond=r"::eq\(OutputIdentifier::commitment\(::get_data\(arg0\.output_pmmr, .*\), arg1\)$", fail_on=False,
+    c.r2("input-commitment-match", VI, cond=r"PartialEq::eq\(OutputIdentifier::commitment\(ReadablePMMR::get_data\(arg0\.output_pmmr, .*\), arg1\)$", fail_on=False,
          desc="validate_input: ok only if the stored output's commitment equals the input")
     c.r2_arg("input-data-pos", VI, "re:ReadablePMMR>::get_data$|pmmr::ReadablePMMR::get_data$", 1, must=["call:Batch::get_output_pos_height", "arg1"])
-    c.r2("output-duplicate", U + "validate_output", cond=r"::eq\(OutputIdentifier::commitment\(::get_data\(arg0\.output_pmmr, Batch::get_output_pos\(arg2,.*Output::commitment\(arg1\)\)$",
+    c.r2("output-duplicate", U + "validate_output", cond=r"PartialEq::eq\(OutputIdentifier::commitment\(ReadablePMMR::get_data\(arg0\.output_pmmr, Batch::get_output_pos\(arg2,.*Output::commitment\(arg1\)\)$",
          fail_on=True, err="DuplicateCommitment",
-         bypass=[(r"^discr\(Batch::get_output_pos\(arg2, Output::commitment\(arg1\)\)\)$", 1), (r"^discr\(::get_data\(arg0\.output_pmmr, Batch::get_output_pos\(", 0)],
+         bypass=[(r"^discr\(Batch::get_output_pos\(arg2, Output::commitment\(arg1\)\)\)$", 1), (r"^discr\(ReadablePMMR::get_data\(arg0\.output_pmmr, Batch::get_output_pos\(", 0)],
          desc="validate_output: a stored output with the same commitment is a DuplicateCommitment; only bypasses: no index entry / no data at the indexed position")
     c.r1("inputs-commit-only", U + "validate_inputs::{closure#0}", VI, via=0)
     c.r1("inputs-features", U + "validate_inputs::{closure#1}", VI, via=0)
-    c.r2("inputs-features-match", U + "validate_inputs::{closure#1}::{closure#0}", cond=r"^::eq\(arg1\.0, arg0\.0\)$", fail_on=False,
+    c.r2("inputs-features-match", U + "validate_inputs::{closure#1}::{closure#0}", cond=r"^PartialEq::eq\(arg1\.0, arg0\.0\)$", fail_on=False,
          desc="validate_inputs (features+commit): the stored identifier must equal the full input")
     c.r2_ret("inputs-collect", U + "validate_inputs", must=["call:Iterator::collect", "call:Iterator::map", "arg1"])
     G = X + "TxHashSet::get_unspent"
@@ -59,12 +59,12 @@ def run(c):
     c.r1("prune-rproof", AI, PM + "prune", require_where=r"^arg0\.rproof_pmmr, SubWithOverflow\(arg2\.pos, 1\)", via=0)
     c.r1("prune-rproof-after-output", AI, PM + "prune", require_where=r"^arg0\.output_pmmr", sink=PM + "prune", sink_where=r"^arg0\.rproof_pmmr", via=0)
     AO = E + "apply_output"
-    c.r2("no-duplicate-output", AO, cond=r"::eq\(OutputIdentifier::commitment\(::get_data\(arg0\.output_pmmr, Batch::get_output_pos\(arg2,.*Output::commitment\(arg1\)\)$",
+    c.r2("no-duplicate-output", AO, cond=r"PartialEq::eq\(OutputIdentifier::commitment\(ReadablePMMR::get_data\(arg0\.output_pmmr, Batch::get_output_pos\(arg2,.*Output::commitment\(arg1\)\)$",
          fail_on=True, err="DuplicateCommitment", sink=PM + "push",
-         bypass=[(r"^discr\(Batch::get_output_pos\(arg2, Output::commitment\(arg1\)\)\)$", 1), (r"^discr\(::get_data\(arg0\.output_pmmr, Batch::get_output_pos\(", 0)])
+         bypass=[(r"^discr\(Batch::get_output_pos\(arg2, Output::commitment\(arg1\)\)\)$", 1), (r"^discr\(ReadablePMMR::get_data\(arg0\.output_pmmr, Batch::get_output_pos\(", 0)])
     c.r1("push-output", AO, PM + "push", require_where=r"^arg0\.output_pmmr, Output::identifier\(arg1\)", via=0)
     c.r1("push-rproof", AO, PM + "push", require_where=r"^arg0\.rproof_pmmr, Output::proof\(arg1\)", via=0)
-    c.r2("push-same-size", AO, ops={"Ne"}, lhs=["call:::unpruned_size", "arg0.output_pmmr"], rhs=["call:::unpruned_size", "arg0.rproof_pmmr"], err="Other")
+    c.r2("push-same-size", AO, ops={"Ne"}, lhs=["call:ReadablePMMR::unpruned_size", "arg0.output_pmmr"], rhs=["call:ReadablePMMR::unpruned_size", "arg0.rproof_pmmr"], err="Other")
     c.r2("push-same-pos", AO, ops={"Ne"}, lhs=["call:PMMR::push", "arg0.output_pmmr"], rhs=["call:PMMR::push", "arg0.rproof_pmmr"], err="Other")
     AB = E + "apply_block"
     c.loop("apply-outputs", AB, E + "apply_output", over=r"Block::outputs")
@@ -83,7 +83,7 @@ def run(c):
     c.loop("rewind-output-index", RS, B + "delete_output_pos_height", over=r"Block::outputs", called_only=True,
            desc="rewind_single_block: the position-index entry of every output of the rewound block is deleted (a missing entry is tolerated)")
     c.loop("rewind-unspend-index", RS, B + "save_output_pos_height", over=r"Batch::get_spent_index",
-         extra_cuts=_none_arms(c, RS, r"^discr\(::get_data\(arg0\.output_pmmr"),
+         extra_cuts=_none_arms(c, RS, r"^discr\(ReadablePMMR::get_data\(arg0\.output_pmmr"),
          desc="rewind_single_block: every re-unspent position still holding data is written back to the position index")
     RM = E + "rewind_mmrs_to_pos"
     for tree, arg in (("output_pmmr", "arg1"), ("rproof_pmmr", "arg1"), ("kernel_pmmr", "arg2")):
